@@ -65,6 +65,8 @@ class HistGen:
         self.used_ids.add(i)
         return i
 
+    episode = None
+
     def rand_tags(self, kind):
         rng = self.rng
         tags = []
@@ -83,6 +85,12 @@ class HistGen:
             tags.append([name] + [rng.choice(vals) for _ in range(n)])
         if rng.random() < 0.1:
             tags.append([])
+        if rng.random() < (0.25 if self.focus in ('C17', 'C18', 'C05') else 0.05):
+            # two tags that collapse to ONE tag-index key (an exact repeat, or two long values sharing their first 182
+            # bytes), preceded by a tag that is not indexed and followed by one that is
+            x = rng.choice([AUTHORS[0].hex().encode(), b'a', b''])
+            twin = rng.choice([[[b'p', x], [b'p', x]], [[b'r', b'v' * 182 + b'1'], [b'r', b'v' * 182 + b'2']], [[b't', x], [b't', x, b'more']]])
+            tags = rng.choice([[], [[b'client', b'x']], [[b'k']]]) + twin + [[rng.choice([b't', b'e', b'g']), rng.choice([b'z', b'later'])]] + tags[:1]
         return tags
 
     def new_event(self, kind=None, pk=None, t=None, tags=None, content=None):
@@ -206,6 +214,24 @@ class HistGen:
             return {'op': 'store', 'ev': self.family_event()}
         if op == 'giftwrap':
             return {'op': 'store', 'ev': self.new_event(kind=1059, pk=ID(rng.choice([0xe1, 0xe2, 0xe3])))}
+        if self.episode:
+            return self.episode.pop(0)
+        if f in ('C11', 'C16') and rng.random() < 0.08:
+            # an address episode: E1 at the address, the address deleted later, a newer E2 stored there, (rebuild /
+            # reopen), E2 deleted by id, E1 and an event just older than the deletion offered again
+            pk = rng.choice(AUTHORS)
+            kind = rng.choice([30023, 30023, 10002])
+            d = rng.choice([b'ep', b'', b'q' * 300, b'w' * 256, b'u' * 437, b'u' * 200]) if kind == 30023 else b''
+            tg = [[b'd', d]] if kind == 30023 else []
+            e1 = self.new_event(kind=kind, pk=pk, t=1000, tags=tg, content=b'e1')
+            dl = self.new_event(kind=5, pk=pk, t=2000, tags=[[b'a', str(kind).encode() + b':' + pk.hex().encode() + b':' + d]], content=b'')
+            e2 = self.new_event(kind=kind, pk=pk, t=3000, tags=tg, content=b'e2')
+            d2 = self.new_event(kind=5, pk=pk, t=3500, tags=[[b'e', e2['id'].hex().encode()]], content=b'')
+            e3 = self.new_event(kind=kind, pk=pk, t=1999, tags=tg, content=b'e3')
+            mid = {'op': rng.choice(['rebuild', 'rebuild', 'reopen'])}
+            self.episode = [{'op': 'store', 'ev': dl}, {'op': 'store', 'ev': e2}, mid, {'op': 'store', 'ev': d2},
+                            {'op': 'store', 'ev': e1}, {'op': 'store', 'ev': e3}]
+            return {'op': 'store', 'ev': e1}
         if op == 'fit':
             # an event that ends exactly at a multiple of the map's growth chunk (2048 bytes in a debug build): the map
             # is completely full afterwards — or one byte short / one byte over
